@@ -17,6 +17,7 @@
 -/
 import GojaModel.C08.CompileSSim
 import GojaModel.C08.CompileEq
+import GojaModel.C08.Props
 
 namespace GojaModel.C08
 open Compl
@@ -144,7 +145,12 @@ theorem compileS_correct (p : Stmt) (hst : stage1 p = true) (h0 : 0 ∉ ids p) (
       refine ⟨fuel, ?_, ?_⟩
       · rw [hf, hstep]; simp [h2.log, hlog1]
       · rw [hf, hstep]; simp [obsCompl]
-    | fatal => exact S.elim
+    | fatal =>
+      obtain ⟨τ, h1, h2, h3⟩ := S
+      obtain ⟨fuel, hf⟩ := reach_run (hr1.trans h1) (by rw [h3]; rfl)
+      refine ⟨fuel, ?_, ?_⟩
+      · rw [hf, h2]; simp [hlog1]
+      · rw [hf, h3]; simp [obsCompl]
 
 /-- The stage-1 instance of `CompileCFCorrect`, for the compositional presentation of the emission. -/
 theorem compileCF_correct_partial₁ :
@@ -193,6 +199,36 @@ theorem compileCF_correct_stage1 (p : Stmt) (hst : stage1 p = true) (h0 : 0 ∉ 
 /-- the executable check `sameCode` the driver still evaluates on every generated stage-1 program is a theorem -/
 theorem sameCode_stage1 (p : Stmt) (hst : stage1 p = true) (hnop : Instr.nop ∉ compileS p) : sameCode p = true := by
   simp [sameCode, compileS_eq_compileCF p hst hnop]
+
+/-! ### the property itself, on the code the back-patching compiler emits (stage-1 programs) -/
+
+/-- compiled_finally_once_in_order: running the code `compileCF` emits for a stage-1 program whose reference
+completion is not the uncatchable one, the mini-VM halts with that completion and its event log is a balanced
+bracket sequence (each finally entry closes the innermost pending try) with, for every try statement `i`, exactly
+as many finally entries as statement entries. -/
+theorem compiled_finally_once_in_order (p : Stmt) (hst : stage1 p = true) (h0 : 0 ∉ ids p)
+    (hnop : Instr.nop ∉ compileS p) (hnf : (refSem p).1 ≠ .fatal) :
+    ∃ fuel, (VM.run (compileProgram p) fuel {}).halted = some (obsCompl (refSem p).1) ∧
+      (∀ st, scan st (VM.run (compileProgram p) fuel {}).log = some st) ∧
+      ∀ i, (VM.run (compileProgram p) fuel {}).log.count (Ev.finE i)
+            = (VM.run (compileProgram p) fuel {}).log.count (Ev.tryE i) := by
+  obtain ⟨fuel, hl, hh⟩ := compileCF_correct_stage1 p hst h0 hnop
+  refine ⟨fuel, hh, ?_, ?_⟩
+  · rw [hl]; exact finally_inner_to_outer p 0 [] hnf
+  · intro i; rw [hl]; exact finally_exactly_once p 0 [] hnf i
+
+/-- compiled_uncatchable_runs_nothing: if the reference completion of a stage-1 program is the uncatchable one,
+the mini-VM run on compileCF's code halts with it and `fatal` is the LAST event of its log: no catch clause and
+no finally block of any enclosing try statement ran after it. -/
+theorem compiled_uncatchable_runs_nothing (p : Stmt) (hst : stage1 p = true) (h0 : 0 ∉ ids p)
+    (hnop : Instr.nop ∉ compileS p) (hf : (refSem p).1 = .fatal) :
+    ∃ fuel pre, (VM.run (compileProgram p) fuel {}).halted = some Compl.fatal ∧
+      (VM.run (compileProgram p) fuel {}).log = pre ++ [Ev.fatal] := by
+  obtain ⟨fuel, hl, hh⟩ := compileCF_correct_stage1 p hst h0 hnop
+  obtain ⟨pre, hpre⟩ := (uncatchable_runs_nothing p 0 [] hf).1
+  refine ⟨fuel, pre, ?_, ?_⟩
+  · rw [hh, hf]; rfl
+  · rw [hl]; exact hpre
 
 /-- compileS produces compileCF's instruction list on concrete stage-1 programs (tests on literals; the
 driver checks the same equality on every generated stage-1 program) -/
